@@ -1,9 +1,9 @@
 CONSTANTS
-  NP = 1
+  NP = 2
   NLines = 2
   Dev = {}
-  Lvls = {TRUE, FALSE}
-  TwoPhase = FALSE
+  Lvls = {TRUE}
+  TwoPhase = TRUE
   Grain = "stmt"
 SPECIFICATION Spec
 INVARIANT InvExactlyOnce
